@@ -382,3 +382,76 @@ Proof.
   - apply oneof_class_match. exact AS.
   - unfold re_match. rewrite rm_oneof_alternation. apply first_some_find.
 Qed.
+
+(* ------------------------------------------------------------------ the index-level transcription is the split-level model *)
+Lemma delete_at_app : forall (a b : list str) n, delete_at (length a + n) (a ++ b) = a ++ delete_at n b.
+Proof.
+  induction a as [|x a IH]; intros b n; [reflexivity|]. simpl. rewrite IH. reflexivity.
+Qed.
+
+Lemma insert_at_app : forall (a b : list str) x, insert_at (length a) x (a ++ b) = a ++ x :: b.
+Proof.
+  induction a as [|y a IH]; intros b x; [destruct b; reflexivity|]. simpl. rewrite IH. reflexivity.
+Qed.
+
+(* the inner for loop: same verdict; the index found is the position of the removed element *)
+Lemma scan_ix_scan : forall cl cur rest j0,
+  match scan_ix cl cur rest j0, scan cl cur rest with
+  | Some (HDel j), Some (SDel rest') => j0 <= j /\ rest' = delete_at (j - j0) rest
+  | Some (HMove j o), Some (SMove o' rest') => o = o' /\ j0 <= j /\ rest' = delete_at (j - j0) rest
+  | None, None => True
+  | _, _ => False
+  end.
+Proof.
+  intros cl cur. induction rest as [|o t IH]; intros j0; simpl; [exact I|].
+  destruct (sym_eq cl o cur).
+  - split; [lia|]. rewrite Nat.sub_diag. reflexivity.
+  - destruct (pmask cl cur o).
+    + split; [reflexivity|]. split; [lia|]. rewrite Nat.sub_diag. reflexivity.
+    + specialize (IH (S j0)).
+      destruct (scan_ix cl cur t (S j0)) as [[j|j x]|]; destruct (scan cl cur t) as [[t'|y t']|]; try contradiction; try exact I.
+      * destruct IH as (L & ->). split; [lia|]. replace (j - j0) with (S (j - S j0)) by lia. reflexivity.
+      * destruct IH as (-> & L & ->). split; [reflexivity|]. split; [lia|].
+        replace (j - j0) with (S (j - S j0)) by lia. reflexivity.
+Qed.
+
+Lemma reorder_ix_go : forall cl fuel done cur rest,
+  reorder_ix cl fuel (rev done ++ cur :: rest) (length done) = reorder_go cl fuel done cur rest.
+Proof.
+  intros cl. induction fuel as [|f IH]; intros done cur rest; [reflexivity|].
+  cbn [reorder_ix reorder_go].
+  assert (LEN : length (rev done ++ cur :: rest) = length done + S (length rest)).
+  { rewrite app_length, rev_length. reflexivity. }
+  destruct rest as [|r rest1].
+  - rewrite LEN. simpl length. replace (S (length done) <? length done + 1) with false; [reflexivity|].
+    symmetry. apply Nat.ltb_ge. lia.
+  - rewrite LEN. replace (S (length done) <? length done + S (length (r :: rest1))) with true
+      by (symmetry; apply Nat.ltb_lt; simpl; lia).
+    assert (NTH : nth_error (rev done ++ cur :: r :: rest1) (length done) = Some cur).
+    { rewrite nth_error_app2 by (rewrite rev_length; lia). rewrite rev_length, Nat.sub_diag. reflexivity. }
+    rewrite NTH.
+    assert (SK : skipn (S (length done)) (rev done ++ cur :: r :: rest1) = r :: rest1).
+    { replace (S (length done)) with (length (rev done) + 1) by (rewrite rev_length; lia).
+      rewrite skipn_app, skipn_all2 by lia.
+      replace (length (rev done) + 1 - length (rev done)) with 1 by lia. reflexivity. }
+    rewrite SK.
+    pose proof (scan_ix_scan cl cur (r :: rest1) 0) as SS.
+    destruct (scan_ix cl cur (r :: rest1) 0) as [[j|j o]|]; destruct (scan cl cur (r :: rest1)) as [[rest'|o' rest']|];
+      try contradiction.
+    + destruct SS as (_ & ->). rewrite Nat.sub_0_r.
+      replace (length done + j + 1) with (length (rev done) + S j) by (rewrite rev_length; lia).
+      rewrite delete_at_app. cbn [delete_at]. apply IH.
+    + destruct SS as (-> & _ & ->). rewrite Nat.sub_0_r.
+      replace (length done + j + 1) with (length (rev done) + S j) by (rewrite rev_length; lia).
+      rewrite delete_at_app. cbn [delete_at].
+      rewrite <- (rev_length done) at 1. rewrite insert_at_app. apply IH.
+    + replace (rev done ++ cur :: r :: rest1) with (rev (cur :: done) ++ r :: rest1)
+        by (simpl; rewrite <- app_assoc; reflexivity).
+      apply (IH (cur :: done) r rest1).
+Qed.
+
+(* the loop as written in helpers.py (indices, del, insert) computes what `reorder` computes *)
+Theorem reorder_ix_eq : forall cl syms, reorder_ix cl (reorder_fuel syms) syms 0 = reorder cl syms.
+Proof.
+  intros cl [|c t]; [reflexivity|]. unfold reorder. apply (reorder_ix_go cl _ [] c t).
+Qed.
